@@ -57,6 +57,43 @@ def make(kind, prm, seed):
     raise ValueError(kind)
 
 
+THIN = {"Fixed": "FixedUncertainty", "Variable": "VariableUncertainty",
+        "RandomVariable": "RandomVariableUncertainty", "Split": "Split"}
+
+
+def make_stub_clf():
+    """a classifier whose predict_proba is prescribed by the candidate's first
+    feature: the classifier is the environment of the stream strategies, the
+    scenario chooses its outputs (utility = 1 - max proba)"""
+    from skactiveml.base import SkactivemlClassifier
+
+    class StubClassifier(SkactivemlClassifier):
+        def __init__(self, classes=None, missing_label=np.nan, cost_matrix=None, random_state=None):
+            super().__init__(classes=classes, missing_label=missing_label, cost_matrix=cost_matrix,
+                             random_state=random_state)
+
+        def fit(self, X, y, sample_weight=None):
+            return self
+
+        def predict_proba(self, X):
+            v = np.asarray(X, dtype=float)[:, 0]
+            u = np.where(v < 0, np.nan, v / 16.0)
+            return np.stack([1 - u, u], axis=1)
+
+    return StubClassifier(classes=[0, 1])
+
+
+def make_thin(kind, prm, seed):
+    """the uncertainty strategy of the kind around an explicit manager with the exact-regime parameters"""
+    from skactiveml import stream as st
+
+    mgr = make(kind, prm, seed)
+    cls = getattr(st, THIN[kind])
+    if kind == "Fixed":
+        return cls(classes=[0, 1], budget_manager=mgr, random_state=seed + 1)
+    return cls(budget_manager=mgr, random_state=seed + 1)
+
+
 class RefStream:
     """Reference uniform stream of RandomState(seed): the Booleans the code can
     observe per position, and a map generator-state -> position."""
@@ -100,6 +137,15 @@ def _int(x):
 
 
 def project(obj, kind, prm, ref):
+    if hasattr(obj, "budget_manager_") or (hasattr(obj, "budget_manager") and kind in THIN
+                                           and not hasattr(obj, "query_by_utility")):
+        # a strategy around a manager: the committed state is the nested manager's; the strategy's own
+        # generator must still be the freshly seeded one (it is only used to derive the manager's seed)
+        own = getattr(obj, "random_state_", None)
+        st = project(getattr(obj, "budget_manager_", obj.budget_manager), kind, prm, ref)
+        if own is not None and obj._verif_own_rng != RefStream._key(own):
+            st["pos"] = -1
+        return st
     th0 = float(Fraction(*prm["Theta0"]))
     rs = getattr(obj, "random_state_", None)
     pos = 0
@@ -141,17 +187,27 @@ def default_params(kind, W, B, allow=False):
             "WTol": [2, 1], "Allow": bool(allow), "Stale": False, "v": 0.5}
 
 
-def record(kind, prm, stream16, cuts, twice, seed, extra_query_other=False):
-    """Run one scenario on a fresh object; returns the trace dict."""
+def record(kind, prm, stream16, cuts, twice, seed, extra_query_other=False, thin=False):
+    """Run one scenario on a fresh object; returns the trace dict.  thin=True
+    drives the uncertainty stream strategy of the kind (stub classifier,
+    explicit manager) instead of the bare manager."""
     b = float(Fraction(*prm["B"]))
     needs_ref = kind in RNG_OBJ_KINDS
     ref = RefStream(seed, 2 * len(stream16) + 4, b, prm["v"]) if needs_ref else None
-    obj = make(kind, prm, seed)
+    if thin:
+        obj = make_thin(kind, prm, seed)
+        obj._verif_own_rng = RefStream._key(np.random.RandomState(seed + 1))
+        stub = make_stub_clf()
+        # utility = 1 - max(1 - v/16, v/16): the abstract chunk holds the utilities the strategy derives
+        stream_abs = [(-1 if v < 0 else min(v, 16 - v)) for v in stream16]
+    else:
+        obj = make(kind, prm, seed)
+        stream_abs = list(stream16)
     events = []
     P = {k: prm[k] for k in ("kind", "W", "B", "S", "Theta0", "K", "WTol", "Allow", "Stale")}
-    for chunk in chunks_of(stream16, cuts):
+    for chunk_raw, chunk in zip(chunks_of(stream16, cuts), chunks_of(stream_abs, cuts)):
         utils = np.array([util_float(v) for v in chunk], dtype=float)
-        cand = np.zeros((len(chunk), 1))
+        cand = np.array([[float(v)] for v in chunk_raw]) if thin else np.zeros((len(chunk), 1))
         reps = 2 if twice else 1
         res = None
         for _ in range(reps):
@@ -159,7 +215,12 @@ def record(kind, prm, stream16, cuts, twice, seed, extra_query_other=False):
             try:
                 with warnings.catch_warnings():
                     warnings.simplefilter("ignore")
-                    if kind in STRATEGY_KINDS:
+                    if thin:
+                        res, ut = obj.query(cand, clf=stub, return_utilities=True)
+                        ua = np.asarray(ut, dtype=float)
+                        same = ua.shape == utils.shape and bool(np.all((ua == utils) | (np.isnan(ua) & np.isnan(utils))))
+                        ev["nutil"] = int(ua.shape[0]) if (ua.ndim == 1 and same) else -1
+                    elif kind in STRATEGY_KINDS:
                         res, ut = obj.query(cand, return_utilities=True)
                         ev["nutil"] = int(np.asarray(ut).shape[0]) if np.asarray(ut).ndim == 1 else -1
                     else:
@@ -187,7 +248,7 @@ def record(kind, prm, stream16, cuts, twice, seed, extra_query_other=False):
                 if kind == "BIQF":
                     obj.update(cand, res, utils.copy())
                 else:
-                    obj.update(cand, res)
+                    obj.update(cand, np.asarray(res, dtype=int))
             ev["st"] = project(obj, kind, prm, ref)
         except Exception as ex:
             ev = {"ev": "UpdateRaised", "exc": "%s: %s" % (type(ex).__name__, ex)}
@@ -195,18 +256,20 @@ def record(kind, prm, stream16, cuts, twice, seed, extra_query_other=False):
         if ev["ev"] != "Update":
             break
     return {
-        "id": "%s/W%d/B%d_%d/%s/cuts%s/%s/seed%d" % (kind, prm["W"], prm["B"][0], prm["B"][1], stream16,
+        "id": "%s%s/W%d/B%d_%d/%s/cuts%s/%s/seed%d" % (THIN[kind] + ":" if thin else "", kind, prm["W"], prm["B"][0], prm["B"][1], stream16,
                                                       sorted(cuts), "twice" if twice else "once", seed),
         "P": P, "rnd": ref.rnd if (ref is not None and kind in RND_KINDS) else [],
         "events": events,
-        "concrete": {"kind": kind, "params": prm, "utilities_in_sixteenths": list(stream16),
+        "concrete": {"kind": kind, "via_strategy": THIN[kind] if thin else None, "params": prm,
+                     "utilities_in_sixteenths": list(stream_abs), "stub_features": list(stream16),
                      "cuts": sorted(cuts), "twice": bool(twice), "seed": seed},
     }
 
 
 def finding_key(tr, rej):
     ev = (rej["offending_event"] or {}).get("ev", "end")
-    return "%s|%s|%s" % (tr["P"]["kind"], ev, ",".join(rej["failed_clauses"]) or "unmatched")
+    who = tr["id"].split("/")[0]
+    return "%s|%s|%s" % (who, ev, ",".join(rej["failed_clauses"]) or "unmatched")
 
 
 def describe(tr):
